@@ -1,0 +1,63 @@
+//go:build verif
+
+package bttest
+
+// Hooks for the verification harness (/verif). Compiled only with the build tag "verif".
+
+import (
+	btapb "cloud.google.com/go/bigtable/admin/apiv2/adminpb"
+	btpb "cloud.google.com/go/bigtable/apiv2/bigtablepb"
+)
+
+// VerifServer gives direct (no listener, no background GC loop) access to the service implementation.
+type VerifServer struct {
+	s *server
+}
+
+// VerifNewServer builds the service exactly as NewServerWithOptions does, without the listener.
+func VerifNewServer(opt Options) *VerifServer {
+	if opt.Storage == nil {
+		opt.Storage = LeveldbMemStorage{}
+	}
+	s := &server{
+		storage: opt.Storage,
+		tables:  make(map[string]*table),
+		clock:   opt.Clock,
+		done:    make(chan struct{}),
+	}
+	for _, tbl := range s.storage.GetTables() {
+		rows := s.storage.Open(tbl)
+		s.tables[tbl.Name] = newTable(tbl, rows)
+	}
+	return &VerifServer{s: s}
+}
+
+func (v *VerifServer) Data() btpb.BigtableServer             { return v.s }
+func (v *VerifServer) Admin() btapb.BigtableTableAdminServer { return v.s }
+
+// RunGC runs one forced GC pass over the table with the server's clock; false if the table is unknown.
+func (v *VerifServer) RunGC(table string) bool {
+	v.s.mu.Lock()
+	tbl, ok := v.s.tables[table]
+	v.s.mu.Unlock()
+	if !ok {
+		return false
+	}
+	tbl.gc(v.s.clock(), v.s.done, true)
+	return true
+}
+
+// Close closes the row stores (as Server.Close does).
+func (v *VerifServer) Close() {
+	close(v.s.done)
+	v.s.mu.Lock()
+	defer v.s.mu.Unlock()
+	for _, tbl := range v.s.tables {
+		tbl.mu.Lock()
+		tbl.rows.Close()
+		tbl.mu.Unlock()
+	}
+}
+
+// VerifSetRandFloat replaces the coin of the row sample filter.
+func VerifSetRandFloat(f func() float64) { randFloat = f }
